@@ -31,6 +31,18 @@ CLAIMS = {
    text="Contract proof of the LRU container: for an arbitrary cache state satisfying the representation invariant (so for every Set/Get/Has/Delete/Len history), every operation preserves the invariant, never exceeds the capacity (0 and 1 included), makes the key just stored or read the most recent, evicts exactly the least recently used key when full, replaces the value of an existing key, and deletes only the given key; whole-view postconditions, so corrupting other keys fails.",
    note=TRUST + "container/list is an assumed rank model (ghost membership, recency stamps, back witness); sync.RWMutex a ghost lock state.",
    design="6/C14"),
+ "C03": dict(
+   text="Contract proof of non-interference by ownership (write frames), not an exploration of schedules: handleHTTPRequest and ServeHTTP are proved to write only fields of the request's own pooled Context, memory allocated during the request, the underlying writer's log and route-cache state; every mutation of the cache list is proved to happen under the exclusive lock (ghost lock state); router tables, middleware lists and routes are only read. Four genuine violations found this way (shared backing arrays, lazy router-field writes, list mutation under RLock) are fixed and kept as canaries.",
+   note=TRUST + "No interleaving is enumerated and no race detector is used. Assumed: R-pool (sync.Pool hands out exclusively owned contexts), R-handler, the Go memory model, sync.RWMutex. The match/QuickMatch summary used by the dispatcher is an assumed contract until the table contracts replace it.",
+   design="6/C03"),
+ "C09": dict(
+   text="Contract proof with exceptional control flow (defer/recover modelled in the VC generator): with an OnPanic hook a handler panic does not escape handleHTTPRequest/ServeHTTP unless the hook itself panics, the hook is called at most once with the recovered value stored under the documented key, and the response is committed afterwards; without a hook the function may panic (propagation). The frame proof shows no router field is written on any path, including the exceptional ones.",
+   note=TRUST + "Handlers and hooks are rely/guarantee contracts (they may panic at any point; their exceptional postconditions are assumed). PanicsHandler middleware in pkg/handlers is not covered.",
+   design="6/C09"),
+ "C12": dict(
+   text="Contract proof: Group is proved, against a rely contract on the registration callback, to put prefix+formatPath(prefix) and the outer-to-inner middleware list in effect during the callback and to restore exactly the previous prefix, group list (header and elements) and global list afterwards, for arbitrary nesting depth (rely/guarantee closure, not unrolling); Router.Use is proved to extend only the list it documents.",
+   note=TRUST + "R-reg: callbacks register routes only through the exported API and do not mutate routes registered earlier; the middleware slices passed to Group do not alias the router's own lists (precondition).",
+   design="6/C12"),
  "C08": dict(
    text="Contract proof: every method of responseWriter and every status/length/write method of Context is proved, for an arbitrary pre-state satisfying the writer invariant (so for every operation history), to preserve 'exactly one WriteHeader on the underlying writer, before any body byte or flush, carrying the last positive status recorded before the commit (200 if none)', with the body log and Length() growing by exactly the bytes the underlying writer accepted (short writes and errors included).",
    note=TRUST + "The underlying http.ResponseWriter/Flusher is modelled by a ghost call log (assumed extern contracts). Hijack is excluded. The induction over operation sequences (invariant + per-operation postconditions) is the standard meta-argument, not an SMT query.",
